@@ -36,6 +36,15 @@ const goBin = "go1.26.8"
 // runs of the same property keep their files apart).
 func replayDir() string { return envOr("BBSIM_REPLAYDIR", filepath.Join(verifDir, "replays")) }
 
+// repoGoRoot is the GOROOT of the toolchain the repository itself is built and tested with: the
+// default `go`, asked from inside /repo with toolchain switching off.
+func repoGoRoot() ([]byte, error) {
+	cmd := exec.Command("go", "env", "GOROOT")
+	cmd.Dir = repoDir
+	cmd.Env = append(os.Environ(), "GOTOOLCHAIN=local")
+	return cmd.Output()
+}
+
 func envOr(k, d string) string {
 	if v := os.Getenv(k); v != "" {
 		return v
@@ -105,9 +114,11 @@ func buildScratch(race bool) (string, string, map[string]int, error) {
 	if err != nil {
 		return "", "", nil, err
 	}
-	goroot, err := exec.Command(goBin, "env", "GOROOT").Output()
+	// the context package that is simulated is the one of the repository's own toolchain (the default
+	// `go`, with which /repo builds and its tests run), not the one of the simulation toolchain
+	goroot, err := repoGoRoot()
 	if err != nil {
-		return scratch, "", nil, fmt.Errorf("%s env GOROOT: %w", goBin, err)
+		return scratch, "", nil, fmt.Errorf("go env GOROOT: %w", err)
 	}
 	modcache, _ := exec.Command(goBin, "env", "GOMODCACHE").Output()
 	stats, err := instr.BuildScratch(instr.Scratch{RepoDir: repoDir, VerifDir: verifDir, GoRoot: strings.TrimSpace(string(goroot)),
@@ -670,7 +681,7 @@ func selftestPassthrough() int {
 		die(2, "%v", err)
 	}
 	defer os.RemoveAll(scratch)
-	goroot, _ := exec.Command(goBin, "env", "GOROOT").Output()
+	goroot, _ := repoGoRoot()
 	modcache, _ := exec.Command(goBin, "env", "GOMODCACHE").Output()
 	if _, err := instr.BuildScratch(instr.Scratch{RepoDir: repoDir, VerifDir: verifDir, GoRoot: strings.TrimSpace(string(goroot)),
 		OutDir: scratch, ModCache: strings.TrimSpace(string(modcache)), WithTests: true}); err != nil {
